@@ -144,9 +144,73 @@ func lastEffect(op string) int {
 	return k
 }
 
+// fsWrite is one replacement of a file's content observed in the effect trace: os.WriteFile, or
+// the equivalent open - write - close through a handle. whole says that the file holds exactly
+// `content` afterwards (WriteFile truncates; a handle must be opened with O_CREATE|O_TRUNC for
+// writing and be written once).
+type fsWrite struct {
+	openAt, at, endAt int // effect indices: file touched first / content written / last effect of the write
+	path, content     string
+	mode              int
+	whole             bool
+}
+
+// fsWrites collects the writes of the trace; effect `logAt` (or -1) is the log file's open and is not one.
+func fsWrites(logAt int) (ws []fsWrite, stray int) {
+	n := vrt.EffectCount()
+	used := map[int]bool{}
+	for i := 0; i < n; i++ {
+		switch vrt.EffectOp(i) {
+		case "WriteFile":
+			ws = append(ws, fsWrite{openAt: i, at: i, endAt: i, path: vrt.EffectStr(i, 0), content: vrt.EffectStr(i, 1), mode: vrt.EffectInt(i, 2), whole: true})
+		case "OpenFile":
+			if i == logAt {
+				continue
+			}
+			w := fsWrite{openAt: i, at: i, endAt: i, path: vrt.EffectStr(i, 0), mode: vrt.EffectInt(i, 2)}
+			flags := vrt.EffectInt(i, 1)
+			writes := 0
+			for j := i + 1; j < n; j++ {
+				op := vrt.EffectOp(j)
+				if (op == "FileWrite" || op == "FileClose") && !used[j] && vrt.EffectStr(j, 0) == w.path {
+					used[j] = true
+					w.endAt = j
+					if op == "FileClose" {
+						break
+					}
+					writes++
+					w.at = j
+					w.content = vrt.EffectStr(j, 1)
+				}
+			}
+			const oWronly, oRdwr, oCreate, oTrunc = 0x1, 0x2, 0x40, 0x200
+			w.whole = writes == 1 && flags&(oWronly|oRdwr) != 0 && flags&oCreate != 0 && flags&oTrunc != 0
+			ws = append(ws, w)
+		case "FileWrite", "FileClose":
+			if !used[i] {
+				stray++
+			}
+		}
+	}
+	return ws, stray
+}
+
+// stagesAfter counts the pipeline effects (stage summaries, import optimiser, formatter) recorded after index i.
+func stagesAfter(i int) int {
+	k := 0
+	for j := i + 1; j < vrt.EffectCount(); j++ {
+		op := vrt.EffectOp(j)
+		if strings.HasPrefix(op, "stage:") || op == "imports.Process" || op == "format.Source" {
+			k++
+		}
+	}
+	return k
+}
+
 // C18Generate: whenever Generate succeeds with output=true, stdout received exactly the returned
-// bytes (both with and without dry-run); the file, when written, received the same bytes; no
-// file is written under dry-run or after a formatter failure; a failing write is reported.
+// bytes (both with and without dry-run); the file, when written, received the same bytes - as its
+// WHOLE content; no file is touched under dry-run or before both formatters succeeded; a failing
+// write is reported.
 func C18Generate() {
 	if !vrt.Symbolic() {
 		return // environment-stub harness: no native replay
@@ -158,11 +222,20 @@ func C18Generate() {
 	g := generator.NewGenerator(gmodel.Code{BaseCode: base})
 	res, err := g.Generate(outPath, output, dry)
 
-	nWrite := countEffects("WriteFile")
+	ws, stray := fsWrites(-1)
+	nWrite := len(ws)
 	nPrint := countEffects("print:stdout")
+	vrt.Assert("no-stray-handle-write", stray == 0)
 	vrt.Assert("at-most-one-write", nWrite <= 1)
 	if dry {
 		vrt.Assert("dry-never-writes", nWrite == 0)
+	}
+	for _, w := range ws {
+		// the output path is touched only after both formatters succeeded
+		vrt.Assert("write-after-format", countEffects("imports.Process") == 1 && countEffects("format.Source") == 1 && stagesAfter(w.openAt) == 0)
+		vrt.Assert("write-path", w.path == outPath)
+		vrt.Assert("write-mode", w.mode == 0644)
+		vrt.Assert("write-replaces-the-whole-file", w.whole)
 	}
 	if err == nil {
 		if output {
@@ -173,18 +246,9 @@ func C18Generate() {
 		}
 		if !dry {
 			vrt.Assert("written-once", nWrite == 1)
-			if w := lastEffect("WriteFile"); w >= 0 {
-				vrt.Assert("write-path", vrt.EffectStr(w, 0) == outPath)
-				vrt.Assert("write-content-is-result", vrt.EffectStr(w, 1) == string(res))
-				vrt.Assert("write-mode", vrt.EffectInt(w, 2) == 0644)
+			if nWrite == 1 {
+				vrt.Assert("write-content-is-result", ws[0].content == string(res))
 			}
-		}
-	} else {
-		// an error is reported only for formatter or write failures; a write is attempted only
-		// after both formatters succeeded
-		if nWrite == 1 {
-			vrt.Assert("write-after-format", countEffects("imports.Process") == 1 && countEffects("format.Source") == 1 &&
-				lastEffect("WriteFile") > lastEffect("format.Source"))
 		}
 	}
 	vrt.Reach("end")
@@ -196,8 +260,9 @@ func isFsEffect(op string) bool {
 
 // C15Run: real runner.Run with every stage summarised by an arbitrary result/error. The only
 // file-system effects are the log file (iff conf.Log != "", opened first with O_RDWR|O_TRUNC|O_CREATE)
-// and at most one WriteFile(conf.Output, formatted, 0644), which happens iff !DryRun and every
-// stage and both formatters succeeded and is the last effect; Run reports every failure.
+// and at most one whole-file write of the formatted bytes to conf.Output with mode 0644, which
+// happens iff !DryRun and every stage and both formatters succeeded - the output path is not
+// touched before that - and is the last effect; Run reports every failure.
 func C15Run() {
 	if !vrt.Symbolic() {
 		return
@@ -213,30 +278,36 @@ func C15Run() {
 	err := runner.Run(conf)
 
 	n := vrt.EffectCount()
-	nWrite, nOpen, nOther := 0, 0, 0
-	stagesOK := 0
-	for i := 0; i < n; i++ {
-		op := vrt.EffectOp(i)
-		switch {
-		case op == "WriteFile":
-			nWrite++
-			vrt.Assert("write-is-last-fs-effect", i == n-1 || (conf.Prints && i == n-2 && vrt.EffectOp(n-1) == "print:stdout"))
-			vrt.Assert("write-target-is-output", vrt.EffectStr(i, 0) == conf.Output)
-			vrt.Assert("write-mode", vrt.EffectInt(i, 2) == 0644)
-		case op == "OpenFile":
-			nOpen++
-			vrt.Assert("log-opened-first", i == 0)
-			vrt.Assert("log-target", vrt.EffectStr(i, 0) == conf.Log)
-			vrt.Assert("log-flags", vrt.EffectInt(i, 1) == 0x242) // O_RDWR|O_CREATE|O_TRUNC
-		case strings.HasPrefix(op, "fs:"):
-			nOther++
-		case strings.HasPrefix(op, "stage:"):
-			stagesOK++
+	logAt := -1
+	if conf.Log != "" {
+		vrt.Assert("log-opened-first", n > 0 && vrt.EffectOp(0) == "OpenFile")
+		if n > 0 && vrt.EffectOp(0) == "OpenFile" {
+			logAt = 0
+			vrt.Assert("log-target", vrt.EffectStr(0, 0) == conf.Log)
+			vrt.Assert("log-flags", vrt.EffectInt(0, 1) == 0x242) // O_RDWR|O_CREATE|O_TRUNC
 		}
 	}
-	vrt.Assert("no-other-fs-effect", nOther == 0)
+	ws, stray := fsWrites(logAt)
+	nWrite := len(ws)
+	nOther := 0
+	for i := 0; i < n; i++ {
+		if strings.HasPrefix(vrt.EffectOp(i), "fs:") {
+			nOther++
+		}
+	}
+	for _, w := range ws {
+		last := n - 1
+		if conf.Prints && vrt.EffectOp(n-1) == "print:stdout" {
+			last = n - 2
+		}
+		vrt.Assert("write-is-last-fs-effect", w.endAt == last)
+		vrt.Assert("write-target-is-output", w.path == conf.Output)
+		vrt.Assert("write-mode", w.mode == 0644)
+		vrt.Assert("write-replaces-the-whole-file", w.whole)
+		vrt.Assert("output-untouched-until-every-stage-succeeded", stagesAfter(w.openAt) == 0)
+	}
+	vrt.Assert("no-other-fs-effect", nOther == 0 && stray == 0)
 	vrt.Assert("at-most-one-write", nWrite <= 1)
-	vrt.Assert("log-iff-configured", (nOpen == 1) == (conf.Log != "") && nOpen <= 1)
 	if conf.DryRun {
 		vrt.Assert("dry-never-writes", nWrite == 0)
 	}
@@ -244,7 +315,8 @@ func C15Run() {
 		vrt.Assert("success-writes-unless-dry", (nWrite == 1) == !conf.DryRun)
 	} else if nWrite == 1 {
 		// the only error after a write attempt is the write's own failure
-		vrt.Assert("error-after-write-is-write-failure", vrt.EffectOp(n-1) == "WriteFile")
+		op := vrt.EffectOp(n - 1)
+		vrt.Assert("error-after-write-is-write-failure", op == "WriteFile" || op == "OpenFile" || op == "FileWrite" || op == "FileClose")
 	}
 	vrt.Reach("end")
 }
